@@ -67,6 +67,18 @@ claim("C06", "other",
       "decision-table extraction from MIR (incl. closure bodies) + variant/ordering enumeration + call-graph reachability",
       "DESIGN.md §3 C06")
 
+claim("C18", "other",
+      "Decision table of the catch-up entry extracted from MIR; for every ordering of (current gc/max, supplied gc/max, loop "
+      "value of max) the closing assertion cannot fail, no returning path lowers (gc,max), and a copy is replaced only by a "
+      "snapshot that is newer and not below its watermark; creating accessor only when the removed-member memory has no entry; "
+      "call-graph proof that catch-up reaches no heartbeat/liveness writer but registers the member with the failure detector; "
+      "replacement discipline (pair-wise insert through set_versioned_value, removal of exactly the remaining previous keys); "
+      "unvalidated supplied versions recorded as known finding KF-2.",
+      "Interleavings with gossip are not explored (each gossip step is separately monotone, C04). HashSet/BTreeMap semantics "
+      "assumed. Panics inside callees other than the closing assertion are covered by the panic inventory of C09.",
+      "decision-table extraction from MIR + ordering enumeration + call-graph reachability + writer inventory",
+      "DESIGN.md §3 C18")
+
 ALL = ["C%02d" % i for i in range(1, 21)]
 PENDING_REASON = "check under construction in this session (rules designed in DESIGN.md §3, not yet armed)"
 
